@@ -123,7 +123,7 @@ func zinterKeyFunc(cmd []string) (internal.KeyExtractionFuncResult, error) {
 	if endIdx >= 1 {
 		return internal.KeyExtractionFuncResult{
 			Channels:  make([]string, 0),
-			ReadKeys:  cmd[1:endIdx],
+			ReadKeys:  cmd[1 : endIdx+1], // endIdx is an index into cmd[1:]
 			WriteKeys: make([]string, 0),
 		}, nil
 	}
@@ -348,8 +348,8 @@ func zunionKeyFunc(cmd []string) (internal.KeyExtractionFuncResult, error) {
 	if endIdx >= 1 {
 		return internal.KeyExtractionFuncResult{
 			Channels:  make([]string, 0),
-			ReadKeys:  cmd[1:endIdx],
-			WriteKeys: cmd[1:endIdx],
+			ReadKeys:  cmd[1 : endIdx+1], // endIdx is an index into cmd[1:]
+			WriteKeys: make([]string, 0),
 		}, nil
 	}
 	return internal.KeyExtractionFuncResult{}, errors.New(constants.WrongArgsResponse)
